@@ -483,4 +483,53 @@ def uploadAll (st : Store) (tracked : Bool) (id c bufCap : Nat) (ws : List Bytes
   | (st, _, some e) => (st, some e)
   | (st, s, none) => let r := s.close st; (r.1, r.2.2)
 
+/-! ## Tracked uploads in segments (the client protocol of Suspend/Resume)
+
+  A client that may be interrupted uploads `content` in segments.  Every segment opens a new stream
+  for the file id and calls Resume: on success it continues from the returned offset; if there is
+  nothing to resume (ErrNoDocuments: no marker yet) it starts from offset 0 on the same, still pristine,
+  stream.  A non-final segment writes some pieces and calls Suspend; the final segment writes all the
+  remaining content, calls Close and the upload is claimed (ClaimUpload). -/
+
+/-- successive pieces of the given sizes (clipped at the end of the data) -/
+def pieces : Bytes → List Nat → List Bytes
+  | _, [] => []
+  | l, n :: ns => l.take n :: pieces (l.drop n) ns
+
+def resumeOrFresh (st : Store) (id c B : Nat) : Except Err (UploadStream × Nat) :=
+  match (UploadStream.new true id c B).resume st with
+  | (s, n, none) => .ok (s, n)
+  | (s, _, some .noDocuments) => .ok (s, 0)
+  | (_, _, some e) => .error e
+
+/-- the non-final segments: resume, write the pieces of the given sizes, suspend -/
+def trackedSegments (content : Bytes) (id c B : Nat) : Store → List (List Nat) → Store × Option Err
+  | st, [] => (st, none)
+  | st, sizes :: plan =>
+    match resumeOrFresh st id c B with
+    | .error e => (st, some e)
+    | .ok (s, off) =>
+      match writeAll st s (pieces (content.drop off) sizes) with
+      | (st, _, some e) => (st, some e)
+      | (st, s, none) =>
+        match s.suspend st with
+        | (st, _, _, some e) => (st, some e)
+        | (st, _, _, none) => trackedSegments content id c B st plan
+
+/-- a complete tracked upload: the segments of `plan`, then a final segment writing pieces of sizes
+    `last` followed by everything that is left, Close and ClaimUpload -/
+def trackedUpload (st : Store) (content : Bytes) (id c B : Nat) (plan : List (List Nat)) (last : List Nat) : Store × Option Err :=
+  match trackedSegments content id c B st plan with
+  | (st, some e) => (st, some e)
+  | (st, none) =>
+    match resumeOrFresh st id c B with
+    | .error e => (st, some e)
+    | .ok (s, off) =>
+      match writeAll st s (pieces (content.drop off) last ++ [(content.drop off).drop last.sum]) with
+      | (st, _, some e) => (st, some e)
+      | (st, s, none) =>
+        match s.close st with
+        | (st, _, some e) => (st, some e)
+        | (st, _, none) => claimUpload st true id
+
 end Lungo.GridFS
